@@ -114,10 +114,10 @@ def parse_hex(tok):
 # ----------------------------------------------------------------------------- K stream
 def gen_k_case(rng, method, kind):
     if method == "lltsa":
-        N = rng.choice([1, 2, 2, 4, 4, 4, 8, 8, 16])
+        N = rng.choice([1, 2, 2, 4, 4, 4, 8, 8, 16, 32])
     else:
-        N = rng.choice([1, 2, 3, 4, 5, 6, 7, 8, 9, 12])
-    D = rng.choice([1, 2, 2, 3, 3, 4, 5, 6])
+        N = rng.choice([1, 2, 3, 4, 5, 6, 7, 8, 9, 12, 17, 30])
+    D = rng.choice([1, 2, 2, 3, 3, 4, 5, 6, 9, 13])
     sh = rng.choice([0, 0, 1, 2])
     off = [Fraction(rng.choice([0, 0, 0, 3, -5, 16]), 1) for _ in range(D)]
     X = [[Fraction(rng.randint(-8, 8), 2 ** sh) + off[f] for _ in range(N)] for f in range(D)]   # feature major
@@ -414,8 +414,8 @@ def first_diff(impl, model, D):
 
 # ----------------------------------------------------------------------------- J stream (compute_mean + project, exact)
 def gen_j_case(rng):
-    N = rng.choice([1, 2, 2, 4, 4, 8, 16])          # a power of two: the mean is exact in binary64
-    D = rng.choice([1, 2, 3, 4, 6])
+    N = rng.choice([1, 2, 2, 4, 4, 8, 16, 32])      # a power of two: the mean is exact in binary64
+    D = rng.choice([1, 2, 3, 4, 6, 11])
     d = rng.randint(1, D)
     off = [Fraction(rng.choice([0, 0, 7, -12]), 1) for _ in range(D)]
     X = [[Fraction(rng.randint(-8, 8), 2 ** rng.choice([0, 1, 2])) + off[f] for _ in range(N)] for f in range(D)]
@@ -621,11 +621,15 @@ def eval_g(ctx, exe1, cases, stats):
 
 # ----------------------------------------------------------------------------- E stream
 def gen_e_case(rng, method, big):
-    D = rng.choice([2, 3, 4, 5, 6, 8] if not big else [2, 3, 5, 8, 12, 20, 30])
+    D = rng.choice([2, 3, 4, 5, 6, 8, 11] if not big else [2, 3, 5, 8, 12, 20, 30])
     N = rng.choice([3 * D + 6, 4 * D + 10, 40, 60]) if not big else rng.choice([4 * D + 10, 6 * D + 20, 150])
     N = max(N, 12)
     d = rng.randint(1, D - 1) if D > 1 else 1
-    k = rng.randint(4, min(N - 1, 15))
+    if rng.random() < 0.1:
+        d = D                                   # all projection directions
+    k = rng.randint(3, min(N - 1, 15))
+    if rng.random() < 0.15:
+        k = rng.choice([N // 2, N - 1])         # large neighbourhoods
     if method == "lltsa":
         # d = k - 1 makes every local tangent basis span the whole neighbourhood: the alignment matrix is
         # then rounding noise (I - G G^T = 0); keep two spare directions
@@ -999,7 +1003,7 @@ def run(ctx):
     if ctx.is_unshown():
         # search phase: the same exact and public-API checks at a larger budget
         ctx.note("search phase entered: " + "; ".join(ctx._unshown)[:300])
-        kc2, gc2, ec2 = make_cases(rng, 5 * nk, 0, 3 * ne, big=True)
+        kc2, gc2, ec2 = make_cases(rng, (5 if quick else 1) * nk, 0, (3 if quick else 1) * ne, big=True)
         n += eval_k(ctx, exe1, mexe, kc2, stats, reads=reads or "lower")
         n += eval_j(ctx, exe1, mexe, [gen_j_case(rng) for _ in range(400)], stats)
         if not ctx.has_violation():
